@@ -1,25 +1,565 @@
-import MqttVerif.Conn.Lemmas.Basic
+import MqttVerif.Conn.Lemmas.Qos2Recv
 /-!
-# C07 — inbound QoS 2 exactly once (first instalment)
+# C07 — inbound QoS 2 is delivered exactly once per exchange   (agent P7)
+
+Ghost: `notified id evs` = number of `NotifyPacketReceived` events of one call that carry a
+QoS 2 PUBLISH with packet identifier `id`.
+
+* `C07_handled_changes` — every way the set `qos2_publish_handled` changes in one API call
+  (`Q2Step`): inserted only together with the one notification of that PUBLISH; deleted only by a
+  received PUBREL, a sent failing PUBREC (v5.0), a new session, a non-persistent close, or
+  `restore_qos2_publish_handled`.
+* `C07_at_most_once` — for every operation sequence without a deleting step for `id`, at most
+  one notification for `id` (hence: between two consecutive deleting steps at most one).
+* `C07_dup_answered_*`, `C07_first_is_notified_*` (= never swallowed), `C07_survives_resume`,
+  `C07_restore_export`, `C07_release_*`, `C07_released_then_new_*`.
+
+Hypothesis used where a `recv` op is quantified: `ParseOk parse` — the L1 parser invoked for a
+frame with type nibble `t` returns (if anything) a packet of that type with QoS ≤ 2.  It is
+necessary: the handlers notify whatever the parser hands them.
 -/
-set_option linter.unusedSimpArgs false
-set_option linter.unusedVariables false
 namespace MqttVerif.Conn
 open MqttVerif
+set_option linter.unusedSimpArgs false
 
-/-- fix (finding #2): a new session forgets the handled QoS 2 identifiers -/
-theorem C07_new_session_forgets_handled (c : C) : (clearStoreRelated c).s.handled = [] := by
-  simp [clearStoreRelated]
+/-- `p` is a QoS 2 PUBLISH with packet identifier `id` -/
+def isQ2 (id : Nat) (p : Pkt) : Prop := p.kind = .publish ∧ p.qos = 2 ∧ p.pid = some id
+instance (id : Nat) (p : Pkt) : Decidable (isQ2 id p) := by unfold isQ2; infer_instance
 
-/-- the handled set is a set: inserting is idempotent, `del` really removes -/
-theorem C07_handled_set_ops (id : Nat) (l : List Nat) :
-    id ∈ ins id l ∧ id ∉ del id l ∧ (id ∈ l → ins id l = l) ∧ (∀ x, x ≠ id → (x ∈ del id l ↔ x ∈ l)) := by
+/-- ghost: notifications of a QoS 2 PUBLISH `id` among the events of one call -/
+def notified (id : Nat) (evs : List Ev) : Nat := (recvs evs).countP (fun p => decide (isQ2 id p))
+
+/-- the parser returns packets of the type it was invoked for, with a legal QoS -/
+def ParseOk (parse : Nat → Nat → List Nat → Except Nat Pkt) : Prop :=
+  ∀ v fh d p, parse v fh d = .ok p → p.kind.nibble = fh / 16 ∧ p.qos ≤ 2
+
+def OpWf : Op → Prop
+  | .recv _ parse => ParseOk parse
+  | _ => True
+
+/-- a received packet that starts a new session -/
+def NewSessionPkt (p : Pkt) : Prop :=
+  (p.kind = .connect ∧ p.clean = true) ∨
+  (p.kind = .connack ∧ p.rc = some 0 ∧ (p.sp = false ∨ (pSEI, 0) ∈ p.props))
+
+/-- every way one API call can notify packets and change `handled` -/
+inductive Q2Step (cfg : Cfg) (s : St) (op : Op) : Prop
+  /-- nothing notified, `handled` unchanged (includes: duplicate of a handled QoS 2 PUBLISH) -/
+  | quiet : recvs (step cfg s op).ev = [] → (step cfg s op).s.handled = s.handled → Q2Step cfg s op
+  /-- one packet notified that is not a QoS 2 PUBLISH -/
+  | other (p : Pkt) : recvs (step cfg s op).ev = [p] → ¬ (p.kind = .publish ∧ p.qos = 2) →
+      (step cfg s op).s.handled = s.handled → Q2Step cfg s op
+  /-- a QoS 2 PUBLISH whose id was not handled: notified once, id inserted -/
+  | notify (p : Pkt) (id : Nat) : recvs (step cfg s op).ev = [p] → isQ2 id p → id ∉ s.handled →
+      (step cfg s op).s.handled = ins id s.handled → Q2Step cfg s op
+  /-- PUBREL received -/
+  | pubrelRecv (p : Pkt) : recvs (step cfg s op).ev = [p] → p.kind = .pubrel →
+      (step cfg s op).s.handled = del (p.pid.getD 0) s.handled → Q2Step cfg s op
+  /-- CONNECT(clean) / CONNACK(no session) received -/
+  | newSessRecv (p : Pkt) : recvs (step cfg s op).ev = [p] → NewSessionPkt p →
+      (step cfg s op).s.handled = [] → Q2Step cfg s op
+  /-- a failing PUBREC (v5.0, reason code ≥ 0x80) was sent -/
+  | pubrecFailSent (p : Pkt) : op = .send p → recvs (step cfg s op).ev = [] → p.kind = .pubrec → p.ver ≠ 4 →
+      (∃ rc, p.rc = some rc ∧ rc ≥ 0x80) → p ∈ sends (step cfg s op).ev →
+      (step cfg s op).s.handled = del (p.pid.getD 0) s.handled → Q2Step cfg s op
+  /-- CONNECT with clean start / clean session sent -/
+  | connectCleanSent (p : Pkt) : op = .send p → recvs (step cfg s op).ev = [] → p.kind = .connect →
+      p.clean = true → (step cfg s op).s.handled = [] → Q2Step cfg s op
+  /-- `notify_closed` of a non-persistent session -/
+  | closedNonPersistent : op = .closed → s.needStore = false → recvs (step cfg s op).ev = [] →
+      (step cfg s op).s.handled = [] → Q2Step cfg s op
+  /-- `restore_qos2_publish_handled` -/
+  | restored (ids : List Nat) : op = .restoreHandled ids → recvs (step cfg s op).ev = [] →
+      (∀ x, x ∈ (step cfg s op).s.handled ↔ x ∈ ids) → Q2Step cfg s op
+
+theorem nibble_inj {a b : Kind} (h : a.nibble = b.nibble) : a = b := by
+  cases a <;> cases b <;> simp [Kind.nibble] at h <;> rfl
+
+theorem mem_foldl_ins (ids acc : List Nat) (x : Nat) :
+    x ∈ ids.foldl (fun acc x => ins x acc) acc ↔ x ∈ ids ∨ x ∈ acc := by
+  induction ids generalizing acc with
+  | nil => simp
+  | cons a t ih => simp [ih, mem_ins]; grind
+
+/-- **C07 (3)**: the complete list of ways `handled` and the notifications change in one call. -/
+theorem C07_handled_changes (cfg : Cfg) (s : St) (op : Op) (hwf : OpWf op) : Q2Step cfg s op := by
+  cases op with
+  | send p =>
+    rcases send_handled { cfg := cfg, s := s } p with h | ⟨h, hk, hc⟩ | ⟨h, hk, hv, hrc, hs⟩
+    · exact .quiet (by simp [step]) h
+    · exact .connectCleanSent p rfl (by simp [step]) hk hc h
+    · exact .pubrecFailSent p rfl (by simp [step]) hk hv hrc hs h
+  | recv inp parse =>
+    obtain ⟨v, fh, d, h⟩ := recv_sum { cfg := cfg, s := s } inp parse (fun v fh d p hp => (hwf v fh d p hp).2)
+    have hk : ∀ p, parse v fh d = .ok p → p.kind.nibble = fh / 16 := fun p hp => (hwf v fh d p hp).1
+    cases h with
+    | quiet a b => exact .quiet (by simpa [step] using a) b
+    | plain p p' hx a k q b e =>
+      refine .other p' (by simpa [step] using a) ?_ b
+      rintro ⟨h1, h2⟩
+      have := hk p hx
+      rw [← k, h1] at this
+      exact e this.symm (by omega)
+    | pubrel p hx ht a b =>
+      refine .pubrelRecv p (by simpa [step] using a) ?_ b
+      have := hk p hx
+      rw [ht] at this
+      exact nibble_inj this
+    | newSess p hx hn a b =>
+      refine .newSessRecv p (by simpa [step] using a) ?_ b
+      have := hk p hx
+      rcases hn with ⟨ht, hc⟩ | ⟨ht, hr⟩
+      · rw [ht] at this; exact .inl ⟨nibble_inj this, hc⟩
+      · rw [ht] at this; exact .inr ⟨nibble_inj this, hr⟩
+    | notify p p' id hx ht h2 hid ha a k q pid b =>
+      refine .notify p' id (by simpa [step] using a) ⟨?_, q, pid⟩ ha b
+      have := hk p hx
+      rw [ht] at this
+      rw [k]; exact nibble_inj this
+  | timer k => exact .quiet (by simp [step]) (by simp [step])
+  | closed =>
+    cases hn : s.needStore
+    · exact .closedNonPersistent rfl hn (by simp [step]) (by simp [step, notifyClosed_handled, hn])
+    · exact .quiet (by simp [step]) (by simp [step, notifyClosed_handled, hn])
+  | setInterval d => exact .quiet (by simp [step]) (by simp [step])
+  | setFlag f b => exact .quiet (by simp [step]) (by cases f <;> simp [step, setFlag])
+  | setRespTimeout ms => exact .quiet (by simp [step]) (by simp [step])
+  | acquire => exact .quiet (by simp [step]) (by simp [step])
+  | register id => exact .quiet (by simp [step]) (by simp [step])
+  | release id => exact .quiet (by simp [step]) (by simp [step])
+  | erase id => exact .quiet (by simp [step]) (by simp [step])
+  | restoreHandled ids => exact .restored ids rfl (by simp [step]) (by simp [step, mem_foldl_ins])
+  | restorePackets ps => exact .quiet (by simp [step]) (by simp [step])
+
+
+/-! ## consequences of the characterisation -/
+
+/-- a step that deletes `id` from `handled` -/
+def Deletes (cfg : Cfg) (id : Nat) (s : St) (op : Op) : Prop :=
+  id ∈ s.handled ∧ id ∉ (step cfg s op).s.handled
+
+/-- `id` enters `handled` only together with the single notification of a QoS 2 PUBLISH `id`
+    (or by `restore_qos2_publish_handled`). -/
+theorem C07_insert_only_by_notification (cfg : Cfg) (s : St) (op : Op) (hwf : OpWf op) (id : Nat)
+    (h0 : id ∉ s.handled) (h1 : id ∈ (step cfg s op).s.handled) :
+    (∃ p, recvs (step cfg s op).ev = [p] ∧ isQ2 id p) ∨ (∃ ids, op = .restoreHandled ids ∧ id ∈ ids) := by
+  cases C07_handled_changes cfg s op hwf with
+  | quiet a b => rw [b] at h1; exact absurd h1 h0
+  | other p a n b => rw [b] at h1; exact absurd h1 h0
+  | notify p id' a q ha b =>
+    rw [b, mem_ins] at h1
+    rcases h1 with rfl | h1
+    · exact .inl ⟨p, a, q⟩
+    · exact absurd h1 h0
+  | pubrelRecv p a k b => rw [b, mem_del] at h1; exact absurd h1.1 h0
+  | newSessRecv p a n b => simp [b] at h1
+  | pubrecFailSent p e a k v rc hs b => rw [b, mem_del] at h1; exact absurd h1.1 h0
+  | connectCleanSent p e a k c b => simp [b] at h1
+  | closedNonPersistent e n a b => simp [b] at h1
+  | restored ids e a b => exact .inr ⟨ids, e, (b id).1 h1⟩
+
+/-- `id` leaves `handled` only by: PUBREL(id) received; a failing PUBREC(id) sent (v5.0); a new
+    session (CONNECT clean sent / received, CONNACK without session received); a non-persistent
+    close; `restore_qos2_publish_handled` with a list not containing it. -/
+theorem C07_delete_causes (cfg : Cfg) (s : St) (op : Op) (hwf : OpWf op) (id : Nat)
+    (h : Deletes cfg id s op) :
+    (∃ p, recvs (step cfg s op).ev = [p] ∧ p.kind = .pubrel ∧ p.pid.getD 0 = id) ∨
+    (∃ p, op = .send p ∧ p.kind = .pubrec ∧ p.ver ≠ 4 ∧ p.pid.getD 0 = id ∧ (∃ rc, p.rc = some rc ∧ rc ≥ 0x80) ∧
+      p ∈ sends (step cfg s op).ev) ∨
+    (∃ p, recvs (step cfg s op).ev = [p] ∧ NewSessionPkt p) ∨
+    (∃ p, op = .send p ∧ p.kind = .connect ∧ p.clean = true) ∨
+    (op = .closed ∧ s.needStore = false) ∨
+    (∃ ids, op = .restoreHandled ids ∧ id ∉ ids) := by
+  obtain ⟨h0, h1⟩ := h
+  cases C07_handled_changes cfg s op hwf with
+  | quiet a b => rw [b] at h1; exact absurd h0 h1
+  | other p a n b => rw [b] at h1; exact absurd h0 h1
+  | notify p id' a q ha b => rw [b, mem_ins] at h1; exact absurd (.inr h0) h1
+  | pubrelRecv p a k b =>
+    rw [b, mem_del] at h1
+    exact .inl ⟨p, a, k, by grind⟩
+  | newSessRecv p a n b => exact .inr (.inr (.inl ⟨p, a, n⟩))
+  | pubrecFailSent p e a k v rc hs b =>
+    rw [b, mem_del] at h1
+    exact .inr (.inl ⟨p, e, k, v, by grind, rc, hs⟩)
+  | connectCleanSent p e a k c b => exact .inr (.inr (.inr (.inl ⟨p, e, k, c⟩)))
+  | closedNonPersistent e n a b => exact .inr (.inr (.inr (.inr (.inl ⟨e, n⟩))))
+  | restored ids e a b => exact .inr (.inr (.inr (.inr (.inr ⟨ids, e, fun hm => h1 ((b id).2 hm)⟩))))
+
+/-- per call: at most one notification for `id`, and only when `id` was not handled; afterwards
+    it is. -/
+theorem C07_step_notified (cfg : Cfg) (s : St) (op : Op) (hwf : OpWf op) (id : Nat) :
+    notified id (step cfg s op).ev ≤ 1 ∧
+    (notified id (step cfg s op).ev = 1 → id ∉ s.handled ∧ id ∈ (step cfg s op).s.handled) := by
+  unfold notified
+  cases C07_handled_changes cfg s op hwf with
+  | quiet a b => simp [a]
+  | other p a n b =>
+    have : ¬ isQ2 id p := fun h => n ⟨h.1, h.2.1⟩
+    simp [a, this]
+  | notify p id' a q ha b =>
+    rw [a]
+    by_cases hq : isQ2 id p
+    · have : id = id' := by
+        have h1 := hq.2.2; have h2 := q.2.2; rw [h1] at h2; exact Option.some.inj h2
+      subst this
+      simp [hq, ha, b, mem_ins]
+    · simp [hq]
+  | pubrelRecv p a k b =>
+    have : ¬ isQ2 id p := fun h => by have := h.1; rw [k] at this; cases this
+    simp [a, this]
+  | newSessRecv p a n b =>
+    have : ¬ isQ2 id p := fun h => by
+      rcases n with ⟨k, _⟩ | ⟨k, _⟩ <;> (have := h.1; rw [k] at this; cases this)
+    simp [a, this]
+  | pubrecFailSent p e a k v rc hs b => simp [a]
+  | connectCleanSent p e a k c b => simp [a]
+  | closedNonPersistent e n a b => simp [a]
+  | restored ids e a b => simp [a]
+
+/-- no step of the sequence deletes `id` from `handled` -/
+def NoDelete (cfg : Cfg) (id : Nat) : St → List Op → Prop
+  | _, [] => True
+  | s, op :: ops => ¬ Deletes cfg id s op ∧ NoDelete cfg id (step cfg s op).s ops
+
+/-- ghost: notifications of QoS 2 PUBLISH `id` along a sequence of calls -/
+def notifiedRun (cfg : Cfg) (id : Nat) (s : St) (ops : List Op) : Nat :=
+  ((runEvents cfg s ops).map (notified id)).sum
+
+theorem at_most_once_aux (cfg : Cfg) (id : Nat) (ops : List Op) :
+    ∀ s, (∀ op ∈ ops, OpWf op) → NoDelete cfg id s ops →
+      notifiedRun cfg id s ops ≤ 1 ∧
+      (id ∈ s.handled → notifiedRun cfg id s ops = 0 ∧ id ∈ (run cfg s ops).handled) ∧
+      (notifiedRun cfg id s ops = 1 → id ∈ (run cfg s ops).handled) := by
+  induction ops with
+  | nil => intro s _ _; simp [notifiedRun, runEvents, run]
+  | cons op rest ih =>
+    intro s hwf hnd
+    obtain ⟨hd, hnd'⟩ := hnd
+    have hop := hwf op (by simp)
+    obtain ⟨ih1, ih2, ih3⟩ := ih (step cfg s op).s (fun o ho => hwf o (by simp [ho])) hnd'
+    obtain ⟨s1, s2⟩ := C07_step_notified cfg s op hop id
+    have hsum : notifiedRun cfg id s (op :: rest) =
+        notified id (step cfg s op).ev + notifiedRun cfg id (step cfg s op).s rest := by
+      simp [notifiedRun, runEvents]
+    simp only [hsum, run]
+    unfold Deletes at hd
+    refine ⟨?_, ?_, ?_⟩
+    · by_cases h1 : notified id (step cfg s op).ev = 1
+      · have := (ih2 (s2 h1).2).1; omega
+      · omega
+    · intro hin
+      have h0 : notified id (step cfg s op).ev = 0 := by
+        by_cases h1 : notified id (step cfg s op).ev = 1
+        · exact absurd hin (s2 h1).1
+        · omega
+      have hin' : id ∈ (step cfg s op).s.handled := by
+        by_cases hh : id ∈ (step cfg s op).s.handled
+        · exact hh
+        · exact absurd ⟨hin, hh⟩ hd
+      have := ih2 hin'
+      exact ⟨by omega, this.2⟩
+    · intro htot
+      by_cases h1 : notified id (step cfg s op).ev = 1
+      · exact (ih2 (s2 h1).2).2
+      · exact ih3 (by omega)
+
+/-- **C07 (at most once)**: along every operation sequence, started in every state, in which no
+    step deletes `id` from `handled` — i.e. between two consecutive deleting steps
+    (`C07_delete_causes`: PUBREL received, failing PUBREC sent, new session, non-persistent close,
+    restore), or from the start — the application is notified of at most one QoS 2 PUBLISH with
+    that identifier; and if it was, the identifier is handled at the end. -/
+theorem C07_at_most_once (cfg : Cfg) (id : Nat) (s : St) (ops : List Op)
+    (hwf : ∀ op ∈ ops, OpWf op) (hnd : NoDelete cfg id s ops) :
+    notifiedRun cfg id s ops ≤ 1 ∧ (notifiedRun cfg id s ops = 1 → id ∈ (run cfg s ops).handled) :=
+  ⟨(at_most_once_aux cfg id ops s hwf hnd).1, (at_most_once_aux cfg id ops s hwf hnd).2.2⟩
+
+/-- the same, for a segment anywhere inside a history that starts from a fresh connection object -/
+theorem C07_at_most_once_between (cfg : Cfg) (ver id : Nat) (pre seg : List Op)
+    (hwf : ∀ op ∈ seg, OpWf op)
+    (hnd : NoDelete cfg id (run cfg (St.init cfg ver) pre) seg) :
+    notifiedRun cfg id (run cfg (St.init cfg ver) pre) seg ≤ 1 :=
+  (C07_at_most_once cfg id _ seg hwf hnd).1
+
+/-- once `id` is handled, nothing is notified for it until a deleting step -/
+theorem C07_handled_blocks (cfg : Cfg) (id : Nat) (s : St) (ops : List Op)
+    (hwf : ∀ op ∈ ops, OpWf op) (hnd : NoDelete cfg id s ops) (h : id ∈ s.handled) :
+    notifiedRun cfg id s ops = 0 :=
+  ((at_most_once_aux cfg id ops s hwf hnd).2.1 h).1
+
+
+/-! ## one call: duplicate answered, first copy notified -/
+
+/-- **C07 (1), v3.1.1**: a received QoS 2 PUBLISH whose identifier is handled produces no
+    notification; while connected the PUBREC for that identifier is sent (and nothing else);
+    `handled` is unchanged.
+    Known finding kept open (KNOWN_FINDINGS.txt, `qos2_duplicate_while_not_connected_swallowed`):
+    when NOT connected such a duplicate produces no send and no error either (last conjunct). -/
+theorem C07_dup_answered_v3 {cfg : Cfg} {s : St} {inp : List Nat} {pb' : Framing.PB} {fh : Nat} {data : List Nat}
+    (parse : Nat → Nat → List Nat → Except Nat Pkt) {p : Pkt} {id : Nat}
+    (h : Delivers cfg s inp pb' fh data) (ht : fh / 16 = 3) (hv : s.ver = 4)
+    (hp : parse 4 fh data = .ok p) (hq : p.qos = 2) (hid : p.pid = some id) (hh : id ∈ s.handled) :
+    recvs (step cfg s (.recv inp parse)).ev = [] ∧
+    (step cfg s (.recv inp parse)).s.handled = s.handled ∧
+    (s.status = .connected →
+      sends (step cfg s (.recv inp parse)).ev = [mkAck cfg 4 .pubrec id] ∧ errs (step cfg s (.recv inp parse)).ev = []) ∧
+    (s.status ≠ .connected →
+      sends (step cfg s (.recv inp parse)).ev = [] ∧ errs (step cfg s (.recv inp parse)).ev = []) := by
+  rw [step_recv_of_delivers h, ht]
+  simp only [dispatchRecv, hv, hp, if_true, prV3Publish]
+  by_cases hs : s.status = .connected <;>
+    simp [hq, hid, hh, hs, ins, psV3Simple_sends, psV3Simple_errs, apply_ite C.s, apply_ite C.ev, apply_ite C.cfg,
+      apply_ite St.handled, apply_ite St.status, apply_ite recvs, apply_ite sends, apply_ite errs, C.setPanic]
+
+/-- **C07 (2), v3.1.1** (`first_is_notified` = `never_swallowed`): with the identifier not handled,
+    exactly one notification, carrying that packet, and the identifier is handled afterwards. -/
+theorem C07_first_is_notified_v3 {cfg : Cfg} {s : St} {inp : List Nat} {pb' : Framing.PB} {fh : Nat} {data : List Nat}
+    (parse : Nat → Nat → List Nat → Except Nat Pkt) {p : Pkt} {id : Nat}
+    (h : Delivers cfg s inp pb' fh data) (ht : fh / 16 = 3) (hv : s.ver = 4)
+    (hp : parse 4 fh data = .ok p) (hq : p.qos = 2) (hid : p.pid = some id) (hh : id ∉ s.handled) :
+    recvs (step cfg s (.recv inp parse)).ev = [p] ∧
+    (step cfg s (.recv inp parse)).s.handled = ins id s.handled ∧
+    id ∈ (step cfg s (.recv inp parse)).s.handled := by
+  rw [step_recv_of_delivers h, ht]
+  simp only [dispatchRecv, hv, hp, if_true, prV3Publish]
+  simp [hq, hid, hh, mem_ins, apply_ite C.s, apply_ite C.ev, apply_ite St.handled, apply_ite recvs, C.setPanic]
+
+/-- the hypotheses "passes the alias stage and Receive Maximum" for a v5.0 PUBLISH: `p'` is the
+    packet that leaves the alias stage (`prV5PublishAlias_some`: `p` itself, or `p` with the
+    topic looked up in the alias table) -/
+structure PassesV5 (cfg : Cfg) (s : St) (pb' : Framing.PB) (p p' : Pkt) : Prop where
+  alias : (prV5PublishAlias { cfg := cfg, s := { s with pb := pb' } } p).2 = some p'
+  rm : ∀ m, s.recvMax = some m → s.publishRecv.length < m
+
+theorem prV5Publish_passes {cfg : Cfg} {s : St} {pb' : Framing.PB} {p p' : Pkt} {id : Nat}
+    (hpass : PassesV5 cfg s pb' p p') (hid : p.pid = some id) :
+    ∃ c1 : C, c1.cfg = cfg ∧ c1.ev = [] ∧ c1.s.handled = s.handled ∧ c1.s.status = s.status ∧
+      c1.s.mpsSend = s.mpsSend ∧ c1.s.autoPub = s.autoPub ∧
+      prV5Publish { cfg := cfg, s := { s with pb := pb' } } (.ok p) = prV5PublishMain c1 p p' := by
+  obtain ⟨ha, hrm⟩ := hpass
+  refine ⟨(prV5PublishAlias { cfg := cfg, s := { s with pb := pb' } } p).1, ?_⟩
+  have hst := prV5PublishAlias_some_state ha
+  have hrm' : rmExceeded (prV5PublishAlias { cfg := cfg, s := { s with pb := pb' } } p).1 = false := by
+    rcases hst with e | ⟨t', e⟩ <;> rw [e] <;> simp only [rmExceeded] <;> cases hm : s.recvMax <;> simp
+    · have := hrm _ hm; omega
+    · have := hrm _ hm; omega
+  rw [prV5Publish_ok, ha]
+  simp only [hrm', hid]
+  refine ⟨?_, ?_, ?_, ?_, ?_, ?_, ?_⟩
+  · rcases hst with e | ⟨t', e⟩ <;> rw [e]
+  · rcases hst with e | ⟨t', e⟩ <;> rw [e]
+  · rcases hst with e | ⟨t', e⟩ <;> rw [e]
+  · rcases hst with e | ⟨t', e⟩ <;> rw [e]
+  · rcases hst with e | ⟨t', e⟩ <;> rw [e]
+  · rcases hst with e | ⟨t', e⟩ <;> rw [e]
+  · simp
+
+/-- **C07 (1), v5.0**: duplicate of a handled QoS 2 PUBLISH: no notification, `handled` unchanged,
+    PUBREC sent while connected (provided the peer's Maximum Packet Size admits a PUBREC), nothing
+    sent while not connected (the known finding, see the v3.1.1 theorem). -/
+theorem C07_dup_answered_v5 {cfg : Cfg} {s : St} {inp : List Nat} {pb' : Framing.PB} {fh : Nat} {data : List Nat}
+    (parse : Nat → Nat → List Nat → Except Nat Pkt) {p p' : Pkt} {id : Nat}
+    (h : Delivers cfg s inp pb' fh data) (ht : fh / 16 = 3) (hv : s.ver = 5)
+    (hp : parse 5 fh data = .ok p) (hpass : PassesV5 cfg s pb' p p')
+    (hq : p.qos = 2) (hid : p.pid = some id) (hh : id ∈ s.handled) :
+    recvs (step cfg s (.recv inp parse)).ev = [] ∧
+    (step cfg s (.recv inp parse)).s.handled = s.handled ∧
+    (s.status = .connected → 2 + cfg.pw ≤ s.mpsSend →
+      sends (step cfg s (.recv inp parse)).ev = [mkAck cfg 5 .pubrec id] ∧ errs (step cfg s (.recv inp parse)).ev = []) ∧
+    (s.status ≠ .connected →
+      sends (step cfg s (.recv inp parse)).ev = [] ∧ errs (step cfg s (.recv inp parse)).ev = []) := by
+  rw [step_recv_of_delivers h, ht]
+  obtain ⟨c1, e1, e2, e3, e4, e5, e6, e7⟩ := prV5Publish_passes hpass hid
+  have e : dispatchRecv { cfg := cfg, s := { s with pb := pb' } } 3 (parse s.ver fh data) =
+      prV5Publish { cfg := cfg, s := { s with pb := pb' } } (.ok p) := by simp [dispatchRecv, hv, hp]
+  rw [e, e7]
   refine ⟨?_, ?_, ?_, ?_⟩
-  · unfold ins; split <;> simp_all
-  · simp [del]
-  · intro h; simp [ins, h]
-  · intro x hx; simp [del, hx]
+  · simp [prV5PublishMain, hq, hid, hh, e2, e3]
+  · simp [prV5PublishMain, hq, hid, hh, e3, ins]
+  · intro hs hsz
+    simp [prV5PublishMain, prV5PublishAcks, hq, hid, hh, e1, e2, e3, e4, hs, ins, psV5Pubrec_sends, psV5Pubrec_errs,
+      apply_ite C.s, apply_ite C.ev, apply_ite C.cfg, apply_ite St.mpsSend, apply_ite St.status, apply_ite Cfg.pw,
+      apply_ite sends, apply_ite errs, C.setPanic, sizeOk, Pkt.sz, mkAck, e5]
+    omega
+  · intro hs
+    simp [prV5PublishMain, prV5PublishAcks, hq, hid, hh, e1, e2, e3, e4, hs, ins]
 
-example : (3 : Nat) ∈ ({ (St.init ⟨.server, 2⟩ 4) with handled := [3] } : St).handled := by decide
+/-- **C07 (2), v5.0**: first copy: exactly one notification — the packet that left the alias stage
+    (topic resolved through the alias table when it came aliased) — and the id is handled. -/
+theorem C07_first_is_notified_v5 {cfg : Cfg} {s : St} {inp : List Nat} {pb' : Framing.PB} {fh : Nat} {data : List Nat}
+    (parse : Nat → Nat → List Nat → Except Nat Pkt) {p p' : Pkt} {id : Nat}
+    (h : Delivers cfg s inp pb' fh data) (ht : fh / 16 = 3) (hv : s.ver = 5)
+    (hp : parse 5 fh data = .ok p) (hpass : PassesV5 cfg s pb' p p')
+    (hq : p.qos = 2) (hid : p.pid = some id) (hh : id ∉ s.handled) :
+    recvs (step cfg s (.recv inp parse)).ev = [p'] ∧
+    (step cfg s (.recv inp parse)).s.handled = ins id s.handled ∧
+    id ∈ (step cfg s (.recv inp parse)).s.handled ∧
+    (p' = p ∨ (p.topic = [] ∧ ∃ a t topic, p.alias = some a ∧ s.tar = some t ∧ t.get a = some topic ∧
+      p' = { p with topic := topic, extracted := true })) := by
+  rw [step_recv_of_delivers h, ht]
+  obtain ⟨c1, e1, e2, e3, e4, e5, e6, e7⟩ := prV5Publish_passes hpass hid
+  have e : dispatchRecv { cfg := cfg, s := { s with pb := pb' } } 3 (parse s.ver fh data) =
+      prV5Publish { cfg := cfg, s := { s with pb := pb' } } (.ok p) := by simp [dispatchRecv, hv, hp]
+  rw [e, e7]
+  refine ⟨?_, ?_, ?_, prV5PublishAlias_some hpass.alias⟩
+  · simp [prV5PublishMain, hq, hid, hh, e2, e3]
+  · simp [prV5PublishMain, hq, hid, hh, e3]
+  · simp [prV5PublishMain, hq, hid, hh, e3, mem_ins]
+
+
+/-! ## (4) persistence across resume / export-restore; release makes the id new again -/
+
+/-- `notify_closed` of a persistent session leaves `handled` unchanged -/
+theorem C07_survives_resume (cfg : Cfg) (s : St) (h : s.needStore = true) :
+    (step cfg s .closed).s.handled = s.handled := by
+  simp [step, notifyClosed_handled, h]
+
+/-- … and a non-persistent one empties it -/
+theorem C07_close_non_persistent (cfg : Cfg) (s : St) (h : s.needStore = false) :
+    (step cfg s .closed).s.handled = [] := by
+  simp [step, notifyClosed_handled, h]
+
+/-- `restore_qos2_publish_handled(get_qos2_publish_handled())` on any (e.g. a fresh) object
+    reproduces the exported set -/
+theorem C07_restore_export (cfg : Cfg) (s0 s : St) (x : Nat) :
+    x ∈ (step cfg s0 (.restoreHandled s.handled)).s.handled ↔ x ∈ s.handled := by
+  simp [step, mem_foldl_ins]
+
+/-- a received PUBREL(id) releases the identifier (both versions) -/
+theorem C07_release_by_pubrel {cfg : Cfg} {s : St} {inp : List Nat} {pb' : Framing.PB} {fh : Nat} {data : List Nat}
+    (parse : Nat → Nat → List Nat → Except Nat Pkt) {p : Pkt}
+    (h : Delivers cfg s inp pb' fh data) (ht : fh / 16 = 6) (hp : parse s.ver fh data = .ok p) :
+    (step cfg s (.recv inp parse)).s.handled = del (p.pid.getD 0) s.handled ∧
+    p.pid.getD 0 ∉ (step cfg s (.recv inp parse)).s.handled := by
+  rw [step_recv_of_delivers h, ht]
+  simp only [dispatchRecv, hp, prPubrel]
+  simp [mem_del, apply_ite C.s, apply_ite St.handled]
+
+/-- an accepted failing PUBREC (v5.0, reason code ≥ 0x80) releases the identifier -/
+theorem C07_release_by_failing_pubrec (cfg : Cfg) (s : St) (p : Pkt) (rc : Nat)
+    (hk : p.kind = .pubrec) (hv : p.ver = 5) (hsv : s.ver = 5) (hrc : p.rc = some rc) (hge : rc ≥ 0x80)
+    (hsz : p.sz cfg.pw ≤ s.mpsSend) (hst : s.status = .connected) :
+    (step cfg s (.send p)).s.handled = del (p.pid.getD 0) s.handled ∧
+    p.pid.getD 0 ∉ (step cfg s (.send p)).s.handled := by
+  have hs : sizeOk { cfg := cfg, s := s } p = true := by simp [sizeOk]; omega
+  have : (step cfg s (.send p)).s.handled = del (p.pid.getD 0) s.handled := by
+    simp only [step, send, processSend, hk, hv, hsv, roleMaySend]
+    simp [psV5Pubrec_handled_eq, hs, hst, hrc, hge]
+  rw [this]; simp [mem_del]
+
+/-- a new session (CONNECT with clean start accepted for sending) empties `handled` -/
+theorem C07_release_by_new_session (cfg : Cfg) (s : St) (p : Pkt)
+    (hk : p.kind = .connect) (hv : p.ver = s.ver) (hrole : cfg.role ≠ .server) (hc : p.clean = true)
+    (hst : s.status = .disconnected) (hsz : p.ver = 4 ∨ p.sz cfg.pw ≤ s.mpsSend) :
+    (step cfg s (.send p)).s.handled = [] := by
+  have hr : roleMaySend cfg.role p = true := by
+    cases h : cfg.role <;> simp_all [roleMaySend]
+  simp only [step, send, processSend, hk, hv, hr]
+  by_cases h4 : p.ver = 4
+  · simp [h4, ← hv, psV3Connect_handled, hst, hc]
+  · have hs : sizeOk { cfg := cfg, s := s } p = true := by
+      rcases hsz with h | h
+      · exact absurd h h4
+      · simp [sizeOk]; omega
+    simp [h4, ← hv, psV5Connect_handled, hst, hc, hs]
+
+/-- **released_then_new** (v3.1.1): after PUBREL(id) has been received, the next QoS 2 PUBLISH
+    with that identifier is notified — whatever the state before. -/
+theorem C07_released_then_new_v3 {cfg : Cfg} {s : St} {inp1 inp2 : List Nat} {pb1 pb2 : Framing.PB}
+    {fh1 fh2 : Nat} {d1 d2 : List Nat} (parse1 parse2 : Nat → Nat → List Nat → Except Nat Pkt) {r p : Pkt} {id : Nat}
+    (h1 : Delivers cfg s inp1 pb1 fh1 d1) (ht1 : fh1 / 16 = 6) (hr : parse1 s.ver fh1 d1 = .ok r)
+    (hrid : r.pid.getD 0 = id)
+    (h2 : Delivers cfg (step cfg s (.recv inp1 parse1)).s inp2 pb2 fh2 d2) (ht2 : fh2 / 16 = 3)
+    (hv : (step cfg s (.recv inp1 parse1)).s.ver = 4)
+    (hp : parse2 4 fh2 d2 = .ok p) (hq : p.qos = 2) (hid : p.pid = some id) :
+    recvs (step cfg (step cfg s (.recv inp1 parse1)).s (.recv inp2 parse2)).ev = [p] :=
+  (C07_first_is_notified_v3 parse2 h2 ht2 hv hp hq hid (hrid ▸ (C07_release_by_pubrel parse1 h1 ht1 hr).2)).1
+
+/-- **released_then_new** (v5.0) -/
+theorem C07_released_then_new_v5 {cfg : Cfg} {s : St} {inp1 inp2 : List Nat} {pb1 pb2 : Framing.PB}
+    {fh1 fh2 : Nat} {d1 d2 : List Nat} (parse1 parse2 : Nat → Nat → List Nat → Except Nat Pkt) {r p p' : Pkt} {id : Nat}
+    (h1 : Delivers cfg s inp1 pb1 fh1 d1) (ht1 : fh1 / 16 = 6) (hr : parse1 s.ver fh1 d1 = .ok r)
+    (hrid : r.pid.getD 0 = id)
+    (h2 : Delivers cfg (step cfg s (.recv inp1 parse1)).s inp2 pb2 fh2 d2) (ht2 : fh2 / 16 = 3)
+    (hv : (step cfg s (.recv inp1 parse1)).s.ver = 5)
+    (hp : parse2 5 fh2 d2 = .ok p) (hpass : PassesV5 cfg (step cfg s (.recv inp1 parse1)).s pb2 p p')
+    (hq : p.qos = 2) (hid : p.pid = some id) :
+    recvs (step cfg (step cfg s (.recv inp1 parse1)).s (.recv inp2 parse2)).ev = [p'] :=
+  (C07_first_is_notified_v5 parse2 h2 ht2 hv hp hpass hq hid
+    (hrid ▸ (C07_release_by_pubrel parse1 h1 ht1 hr).2)).1
+
+/-- after a new session / a failing PUBREC the identifier is not handled, so
+    `C07_first_is_notified_*` applies to the next PUBLISH: stated once, generically -/
+theorem C07_not_handled_then_new_v3 {cfg : Cfg} {s : St} {inp : List Nat} {pb' : Framing.PB} {fh : Nat} {data : List Nat}
+    (parse : Nat → Nat → List Nat → Except Nat Pkt) {p : Pkt} {id : Nat}
+    (h : Delivers cfg s inp pb' fh data) (ht : fh / 16 = 3) (hv : s.ver = 4)
+    (hp : parse 4 fh data = .ok p) (hk : p.kind = .publish) (hq : p.qos = 2) (hid : p.pid = some id)
+    (hempty : s.handled = []) :
+    notified id (step cfg s (.recv inp parse)).ev = 1 := by
+  have := (C07_first_is_notified_v3 parse h ht hv hp hq hid (by simp [hempty])).1
+  simp [notified, this, isQ2, hk, hq, hid]
+
+
+/-! ## non-vacuity: concrete states / inputs satisfying the hypotheses -/
+namespace C07Ex
+
+def cfg : Cfg := { role := .client, pw := 2 }
+/-- QoS 2 PUBLISH, id 7 -/
+def pub4 : Pkt := { ver := 4, kind := .publish, qos := 2, pid := some 7, topic := [97], size := 7 }
+def pub5 : Pkt := { ver := 5, kind := .publish, qos := 2, pid := some 7, topic := [97] }
+def rel (v : Nat) : Pkt := { ver := v, kind := .pubrel, pid := some 7, size := 4 }
+/-- a parser in the sense of `ParseOk`: type 3 ↦ the PUBLISH, type 6 ↦ the PUBREL -/
+def parse : Nat → Nat → List Nat → Except Nat Pkt := fun v fh _ =>
+  if fh / 16 = 3 then .ok (if v = 4 then pub4 else pub5) else if fh / 16 = 6 then .ok (rel v) else .error eMalformed
+/-- frame: fixed header 0x34 (PUBLISH, QoS 2), remaining length 2 -/
+def inPub : List Nat := [0x34, 2, 0, 7]
+def inRel : List Nat := [0x62, 2, 0, 7]
+def s4 (handled : List Nat) : St := { St.init cfg 4 with status := .connected, needStore := true, handled := handled }
+def s5 (handled : List Nat) : St := { St.init cfg 5 with status := .connected, needStore := true, handled := handled }
+
+theorem parse_ok : ParseOk parse := by
+  intro v fh d p h
+  simp only [parse] at h
+  split at h
+  · rename_i h3
+    cases h; split <;> simp [pub4, pub5, Kind.nibble, h3]
+  · split at h
+    · rename_i h6; cases h; simp [rel, Kind.nibble, h6]
+    · cases h
+
+theorem delivers4 (hd : List Nat) : Delivers cfg (s4 hd) inPub {} 0x34 [0, 7] :=
+  ⟨⟨[], rfl⟩, by show totalSize 2 ≤ noLimit; decide, rfl, by show (4 : Nat) ≠ 0; decide⟩
+theorem delivers5 (hd : List Nat) : Delivers cfg (s5 hd) inPub {} 0x34 [0, 7] :=
+  ⟨⟨[], rfl⟩, by show totalSize 2 ≤ noLimit; decide, rfl, by show (5 : Nat) ≠ 0; decide⟩
+theorem deliversRel4 (hd : List Nat) : Delivers cfg (s4 hd) inRel {} 0x62 [0, 7] :=
+  ⟨⟨[], rfl⟩, by show totalSize 2 ≤ noLimit; decide, rfl, by show (4 : Nat) ≠ 0; decide⟩
+
+-- (1) duplicate: hypotheses satisfiable, conclusion as computed
+example := C07_dup_answered_v3 parse (delivers4 [7]) (by decide) rfl rfl rfl rfl (by decide)
+example : (step cfg (s4 [7]) (.recv inPub parse)).ev = [.send (mkAck cfg 4 .pubrec 7) none] := by decide
+example := C07_dup_answered_v5 (p' := pub5) parse (delivers5 [7]) (by decide) rfl rfl
+  ⟨by decide, by intro m h; cases h⟩ rfl rfl (by decide)
+-- (2) first copy
+example := C07_first_is_notified_v3 parse (delivers4 []) (by decide) rfl rfl rfl rfl (by decide)
+example : (step cfg (s4 []) (.recv inPub parse)).ev = [.recv pub4] := by decide
+example := C07_first_is_notified_v5 (p' := pub5) parse (delivers5 []) (by decide) rfl rfl
+  ⟨by decide, by intro m h; cases h⟩ rfl rfl (by decide)
+-- (3) a history: PUBLISH, duplicate PUBLISH (no deleting step): exactly one notification
+example : OpWf (.recv inPub parse) := parse_ok
+example : NoDelete cfg 7 (s4 []) [.recv inPub parse, .recv inPub parse] :=
+  ⟨by unfold Deletes; decide, by unfold Deletes; decide, trivial⟩
+example : notifiedRun cfg 7 (s4 []) [.recv inPub parse, .recv inPub parse] = 1 := by decide
+-- … and with a PUBREL in between (a deleting step) the second PUBLISH is a new message
+example : Deletes cfg 7 (s4 [7]) (.recv inRel parse) := by unfold Deletes; decide
+example : notifiedRun cfg 7 (s4 []) [.recv inPub parse, .recv inRel parse, .recv inPub parse] = 2 := by decide
+example := C07_release_by_pubrel parse (deliversRel4 [7]) (by decide) rfl
+example := C07_release_by_failing_pubrec cfg (s5 [7]) { ver := 5, kind := .pubrec, pid := some 7, rc := some 0x80, size := 5 }
+  0x80 rfl rfl rfl rfl (by decide) (by decide) rfl
+example := C07_release_by_new_session cfg { s4 [7] with status := .disconnected }
+  { ver := 4, kind := .connect, clean := true } rfl rfl (by decide) rfl rfl (.inl rfl)
+example := C07_survives_resume cfg (s4 [7]) rfl
+example : (step cfg (s4 [7]) .closed).s.handled = [7] := by decide
+
+end C07Ex
 
 end MqttVerif.Conn
